@@ -1,6 +1,7 @@
 package props
 
 import (
+	"net/http/httptest"
 	"strconv"
 	"strings"
 	"testing"
@@ -551,6 +552,31 @@ func checkCORS(c CORSCase, property string) (vs []*Violation) {
 					break
 				}
 			}
+		}
+	}
+	if property == "C08" && len(vs) == 0 {
+		// two filters with different predicates on one container (one per WebService): what one
+		// filter's configuration allows says nothing about the other's
+		x, y := originPool[len(c.Reqs)%len(originPool)], originPool[(len(c.Reqs)+1)%len(originPool)]
+		ct2 := restful.NewContainer()
+		for _, sv := range [][2]string{{"/p", x}, {"/q", y}} {
+			allowed := sv[1]
+			ws := new(restful.WebService)
+			ws.Path(sv[0])
+			f := restful.CrossOriginResourceSharing{AllowedDomainFunc: func(o string) bool { return o == allowed }, CookiesAllowed: true, Container: ct2}
+			ws.Filter(f.Filter)
+			ws.Route(ws.GET("/x").To(func(req *restful.Request, resp *restful.Response) { resp.WriteHeader(200) }))
+			ct2.Add(ws)
+		}
+		send := func(path, origin string) []string {
+			hr := harness.NewHTTPRequest(model.ReqSpec{Method: "GET", Path: path, Headers: []model.H{{K: "Origin", V: origin}}}, "x")
+			w := httptest.NewRecorder()
+			func() { defer func() { recover() }(); ct2.Dispatch(w, hr) }()
+			return w.Header()["Access-Control-Allow-Origin"]
+		}
+		before, granted, after := send("/q/x", x), send("/p/x", x), send("/q/x", x)
+		if len(before) != 0 || len(after) != 0 || len(granted) != 1 || granted[0] != x {
+			vs = append(vs, viol("", "two filters on one container, /p allows only %q, /q only %q; Origin %q: /q answers Allow-Origin %v, then /p %v, then /q again %v", x, y, x, before, granted, after))
 		}
 	}
 	st.Case(c, nontrivial, labels...)
